@@ -247,8 +247,13 @@ func parseTOCEStargz(r io.Reader) (toc *JTOC, tocDgst digest.Digest, err error) 
 	}
 	dgstr := digest.Canonical.Digester()
 	toc = new(JTOC)
-	if err := json.NewDecoder(io.TeeReader(tr, dgstr.Hash())).Decode(&toc); err != nil {
+	tocR := io.TeeReader(tr, dgstr.Hash())
+	if err := json.NewDecoder(tocR).Decode(&toc); err != nil {
 		return nil, "", fmt.Errorf("error decoding TOC JSON: %v", err)
+	}
+	// The TOC digest is the digest of the whole TOC JSON file. Read it through.
+	if _, err := io.Copy(io.Discard, tocR); err != nil {
+		return nil, "", fmt.Errorf("error reading TOC JSON: %v", err)
 	}
 	if err := tr.Close(); err != nil {
 		return nil, "", err
